@@ -58,7 +58,7 @@ META = {
 
 def tiers(ctx):
     if ctx.tier == "quick":
-        return [("lock", 26, 28, 0)]
+        return [("lock", 40, 28, 0)]
     return [("lock", 400, 40, 0), ("drain", 60, 30, 2)]
 
 
@@ -101,7 +101,7 @@ def run(ctx):
                 return [i in bad for i in range(len(hs2))]
             try:
                 hh = dict(hs[h]); hh["drain"] = len(hs[h]["ops"])
-                case = G.minimise(ctx, binp, hh, k, failing, budget=6)
+                case = G.minimise(ctx, binp, hh, k, failing, budget=3)
             except Exception as ex:
                 ctx.notes.append("minimisation failed: %r" % (ex,))
         ctx.violation({"case": case, "history": h, "step": k,
